@@ -31,11 +31,45 @@ theorem runExits_other (cfg : Cfg) (ex : List (Nat × Nat)) : ∀ (sl : List Slo
       · exact ih sl j hrest
       · rfl
 
-theorem doPass_other (cfg : Cfg) (w : World) (j : Nat) (h : w.exits.contains (j, (w.slot j).gen) = false) :
+theorem closeEnding_other (ks : List Nat) : ∀ (sl : List Slot) (j : Nat), (sl.getD j {}).ending = false →
+    (closeEnding ks sl).1.getD j {} = sl.getD j {} := by
+  induction ks with
+  | nil => intro sl j _; rfl
+  | cons k ks ih =>
+    intro sl j hj
+    unfold closeEnding
+    simp only
+    split
+    · next he =>
+      have hkj : k ≠ j := by intro hh; subst hh; rw [hj] at he; cases he
+      split
+      · have hsame := getD_set_ne sl k j { sl.getD k {} with ending := false, fstate := 2, sess := none, pending := [] } hkj
+        rw [ih _ j (by rw [hsame]; exact hj), hsame]
+      · have hsame := getD_set_ne sl k j { sl.getD k {} with ending := false } hkj
+        rw [ih _ j (by rw [hsame]; exact hj), hsame]
+    · exact ih sl j hj
+
+theorem doPass_other (cfg : Cfg) (w : World) (j : Nat)
+    (h : (w.exits.contains (j, (w.slot j).gen) || (w.slot j).ending) = false) :
     (doPass cfg w).1.slot j = w.slot j := by
+  simp only [Bool.or_eq_false_iff] at h
   have hn : (j, (w.slots.getD j {}).gen) ∉ w.exits := by
-    intro hh; have := List.contains_iff_mem.mpr hh; simp [World.slot] at h; exact absurd hh (by simpa using h)
-  exact runExits_other cfg w.exits w.slots j hn
+    intro hh; have := List.contains_iff_mem.mpr hh; simp only [World.slot] at h; rw [h.1] at this; cases this
+  have h1 := runExits_other cfg w.exits w.slots j hn
+  show (closeEnding [4, 5, 6] (runExits cfg w.exits w.slots).1).1.getD j {} = w.slots.getD j {}
+  rw [closeEnding_other _ _ j (by rw [h1]; exact h.2), h1]
+
+theorem finishSlot_other (w : World) (k j : Nat) (x : Slot) (so : Option St) (evs : List Ev) (h : k ≠ j) :
+    (finishSlot w k x so evs).1.slot j = w.slot j := by
+  unfold finishSlot
+  simp only
+  cases kindOf k <;> exact getD_set_ne w.slots k j _ h
+
+theorem finishSlot_exits (w : World) (k : Nat) (x : Slot) (so : Option St) (evs : List Ev) :
+    ∃ n, (finishSlot w k x so evs).1.exits = w.exits ++ List.replicate n (k, x.gen) := by
+  unfold finishSlot
+  simp only
+  cases kindOf k <;> exact ⟨_, rfl⟩
 
 theorem deliver_other (cfg : Cfg) (w : World) (k j : Nat) (bs : Str) (h : k ≠ j) :
     (deliver cfg w k bs).1.slot j = w.slot j := by
@@ -43,7 +77,7 @@ theorem deliver_other (cfg : Cfg) (w : World) (k j : Nat) (bs : Str) (h : k ≠ 
   simp only
   cases (w.slot k).sess with
   | none => rfl
-  | some s => exact slot_setSlot_ne w k j _ h
+  | some s => exact finishSlot_other w k j _ _ _ h
 
 theorem deliver_exits (cfg : Cfg) (w : World) (k : Nat) (bs : Str) :
     ∃ n, (deliver cfg w k bs).1.exits = w.exits ++ List.replicate n (k, (w.slot k).gen) := by
@@ -51,6 +85,6 @@ theorem deliver_exits (cfg : Cfg) (w : World) (k : Nat) (bs : Str) :
   simp only
   cases (w.slot k).sess with
   | none => exact ⟨0, by simp⟩
-  | some s => exact ⟨_, rfl⟩
+  | some s => exact finishSlot_exits w k _ _ _
 
 end Tbox.C13
